@@ -123,6 +123,14 @@ func checkInput(in []byte, withConsole bool) *failure {
 	if pan != "" {
 		return &failure{"Cbor2JsonManyObjects", hex.EncodeToString(in), pan}
 	}
+	// the same input into a destination that is nothing but an io.Writer: same output, all of it there on return
+	var out2 bytes.Buffer
+	if p2 := call(func() { zerolog.VerifCbor2JsonManyObjects(bytes.NewReader(in), plainW{&out2}) }); p2 != "" {
+		return &failure{"Cbor2JsonManyObjects(plain writer)", hex.EncodeToString(in), p2}
+	}
+	if !bytes.Equal(out.Bytes(), out2.Bytes()) {
+		return &failure{"Cbor2JsonManyObjects(plain writer)", hex.EncodeToString(in), fmt.Sprintf("a plain io.Writer destination received %.120q, a bytes.Buffer %.120q", out2.Bytes(), out.Bytes())}
+	}
 	// the output itself may be up to ~36x the input (a 9-byte float64 such as 5e-324 or 1.8e308 is
 	// printed with 'f' formatting: 300+ digits), and growing a buffer by doubling allocates a
 	// small multiple of its final size: the allowance is linear in input and output, and the
@@ -564,6 +572,11 @@ func TestRapidMutations(t *testing.T) {
 	})
 }
 
+// plainW hides every method of the buffer except Write.
+type plainW struct{ b *bytes.Buffer }
+
+func (p plainW) Write(q []byte) (int, error) { return p.b.Write(q) }
+
 type cutFailure struct {
 	Stream string `json:"stream_hex"`
 	Bounds []int  `json:"event_boundaries"`
@@ -627,7 +640,13 @@ func checkCuts(all []byte, bounds []int) *cutFailure {
 		}
 		var out bytes.Buffer
 		var err error
-		if p := call(func() { err = zerolog.VerifCbor2JsonManyObjects(bytes.NewReader(all[:k]), &out) }); p != "" {
+		// every other cut decodes into a destination that is nothing but an io.Writer (a file, a pipe):
+		// what was decoded before the error must have reached it when the call returns
+		var dst io.Writer = &out
+		if k%2 == 1 {
+			dst = plainW{&out}
+		}
+		if p := call(func() { err = zerolog.VerifCbor2JsonManyObjects(bytes.NewReader(all[:k]), dst) }); p != "" {
 			return &cutFailure{hex.EncodeToString(all), bounds, k, p}
 		}
 		want := bytes.Join(lines[:m], nil)
